@@ -19,11 +19,22 @@
   6. `findLayers_WF_partial`, `getLayers_WF_partial`, `run_WF_partial`: the table an
      invocation reads from the disk is well-formed (hypothesis: the listing of the layers
      directory has no name twice), and so is what the invocation returns.
+  7. the tree invariant `TreeWF` (Lemmas/TreeWF.lean, TreeKeeps.lean): `children_nodup`
+     discharges that hypothesis (`findLayers_WF`, `getLayers_WF`, `run_WF`); `run_keeps_treeWF`:
+     every command except mount / chroot keeps it, any world, any exit.
+  8. the forest ON DISK (Lemmas/DiskView.lean, DiskForest.lean, DiskCmd.lean):
+     `disk_forest_after_run`, `disk_inv_after_run`, `disk_forest_after_rename`,
+     `disk_forest_reachable`, `disk_reach_inv` — after any sequence of init / add / remove /
+     rebase / mkdirs / list invocations (any exit, any fault / crash / pretend setting) and of
+     renames that return normally, the installation can be listed and the table read is `WF`.
 -/
 import Lc.Lemmas.RunM
 import Lc.Lemmas.Forest
 import Lc.Lemmas.ForestInv
 import Lc.Lemmas.ForestCmd
+import Lc.Lemmas.TreeWF
+import Lc.Lemmas.TreeKeeps
+import Lc.Lemmas.DiskCmd
 
 namespace Lc.Props.C02
 open Lc Lc.Layers Lc.RunM Lc.Forest
@@ -754,7 +765,7 @@ example : (stepS exCfg (exW, { faultAt := some 1 }) (.add b!"n" b!"b" [])).1.ord
 /-- a disk: layers `m`, `b` (base m), a directory with an illegal name and one without a
     layerconfig; FindLayers returns the two layers, parents first -/
 def exDisk : World :=
-  { fs := [(b!"/lc", .dir), (b!"/lc/layers", .dir),
+  { fs := [(b!"/", .dir), (b!"/lc", .dir), (b!"/lc/layers", .dir),
            (b!"/lc/layers/b", .dir), (b!"/lc/layers/b/layerconfig", .file b!"base m\n"),
            (b!"/lc/layers/m", .dir), (b!"/lc/layers/m/layerconfig", .file []),
            (b!"/lc/layers/x.y", .dir), (b!"/lc/layers/x.y/layerconfig", .file []),
@@ -788,5 +799,386 @@ example : Before exW.order b!"m" b!"a" :=
   (wf_order exW exW_wf).2.2 exA exC
     (Ancestor.trans exA exB exC (Ancestor.parent exB exA (by simp [exW, exLayers]) (by decide) (by decide))
       (by simp [exW, exLayers]) (by decide) (by decide))
+
+/-! ### 7. the disk: a well-formed tree stays well-formed, and lists without a name twice -/
+
+open Lc.TreeWF Lc.TreeKeeps
+
+/-- **children_nodup**: in a well-formed tree (`TreeWF`: no path twice, every path clean and
+    absolute, parents present) a directory listing has no name twice -/
+theorem children_nodup (fs : Fs.Tree) (h : TreeWF fs) (dir : Bytes) : (Fs.children fs dir).Nodup :=
+  Lc.TreeWF.children_nodup h dir
+
+/-- **findLayers_WF**: `findLayers_WF_partial` with the tree invariant instead of the
+    hypothesis on the listing -/
+theorem findLayers_WF (cfg : Config) (w w' : World) (d : Defs) (hT : TreeWF w.fs)
+    (hr : (findLayers cfg).run.run w = (.ok d, w')) : WF d :=
+  findLayers_WF_partial cfg w w' d (Lc.TreeWF.children_nodup hT _) hr
+
+theorem getLayers_WF (cfg : Config) (inuse : List (Bytes × List User)) (w w' : World) (d : Defs)
+    (hT : TreeWF w.fs) (hr : (getLayers cfg inuse).run.run w = (.ok d, w')) : WF d :=
+  getLayers_WF_partial cfg inuse w w' d (Lc.TreeWF.children_nodup hT _) hr
+
+theorem run_WF (cfg : Config) (inuse : List (Bytes × List User)) (c : Cmd) (w : World)
+    (d : Defs) (hc : structural c = true) (hT : TreeWF w.fs)
+    (hr : (run cfg inuse c w).1 = .ok d) : WF d :=
+  run_WF_partial cfg inuse c w d hc (Lc.TreeWF.children_nodup hT _) hr
+
+/-- **run_keeps_treeWF**: a whole invocation of any command except `mount` / `chroot`, from
+    ANY world (any pretend / force / fault / crash setting), on ANY exit, leaves a well-formed
+    tree well-formed — provided the three configured directories are clean absolute paths
+    (`CfgClean`).  `mount` and `chroot` are excluded because they create directories and
+    symbolic links at paths copied verbatim from a layerconfig, which need not be clean; the
+    model's tree does not normalise them as a real kernel would. -/
+theorem run_keeps_treeWF (cfg : Config) (inuse : List (Bytes × List User)) (c : Cmd) (w : World)
+    (hc : CfgClean cfg) (hs : fsSafe c = true) (hT : TreeWF w.fs) :
+    TreeWF (run cfg inuse c w).2.fs := run_tw cfg inuse c w hc hs hT
+
+/-- the example disk is well-formed, the example configuration clean; after a real
+    (non-pretending) `rebase` and after an `add` interrupted by a crash it still is -/
+example : TreeWF exDisk.fs ∧ CfgClean exCfg := by decide
+example : TreeWF (run exCfg [] (.rebase b!"b" []) exDisk).2.fs :=
+  run_keeps_treeWF exCfg [] _ exDisk (by decide) rfl (by decide)
+example : TreeWF (run exCfg [] (.add b!"n" b!"b" []) { exDisk with crashAt := some 3 }).2.fs :=
+  run_keeps_treeWF exCfg [] _ _ (by decide) rfl (by decide)
+/-- a tree with a path twice, a tree with an unclean path, a tree with an orphan: not well-formed -/
+example : ¬ TreeWF [(b!"/a", .dir), (b!"/a", .dir)] := by decide
+example : ¬ TreeWF [(b!"/", .dir), (b!"/a", .dir), (b!"/a/../a", .dir)] := by decide
+example : ¬ TreeWF [(b!"/", .dir), (b!"/a/b", .dir)] := by decide
+/-- without the invariant a listing can have a name twice -/
+example : ¬ (Fs.children [(b!"/", .dir), (b!"/a", .dir), (b!"/a", .file [])] b!"/").Nodup := by decide
+
+/-! ### 8. the forest ON DISK: what the next invocation reads -/
+
+open Lc.DiskView Lc.DiskForest Lc.DiskCmd
+
+/-- side conditions on the configuration (all decidable): the three configured directories
+    are clean absolute paths; no automatic export link lies at, above or below a layer
+    directory (`ExportsApart`, Lemmas/ExportsApart.lean); the layers directory is not itself
+    called `.bashrc` and is neither of the two files `init` writes -/
+def CfgOK (cfg : Config) : Prop :=
+  CfgClean cfg ∧ ExportsApart.ExportsApart cfg ∧ pathBase cfg.layerdirs ≠ b!".bashrc" ∧
+    cfg.layerdirs ∉ initFiles cfg
+
+instance (cfg : Config) : Decidable (CfgOK cfg) := inferInstanceAs (Decidable (_ ∧ _ ∧ _ ∧ _))
+
+/-- **a forest on disk can be listed**: `findLayers` succeeds, only reads, and returns a
+    well-formed table — the one described by `diskLayers` -/
+theorem forest_lists (cfg : Config) (w : World) (hf : DiskForest cfg w.fs) :
+    ∃ d, (findLayers cfg).run.run w = (.ok d, w) ∧ WF d ∧ d.layers = diskLayers cfg w.fs := by
+  have hdir := isDir_of_get_dir w.fs _ hf.ok.dir
+  obtain ⟨o, ho⟩ := normalize_fuel _ hf.check
+  have hrun : (findLayers cfg).run.run w = (.ok { layers := diskLayers cfg w.fs, order := o }, w) := by
+    unfold findLayers fail reorder
+    simp only [run_bind, run_getW, run_ite, run_throw]
+    have hc : checkInheritance (readLayerFiles cfg w.fs (Fs.children w.fs cfg.layerdirs)) = true := hf.check
+    have ho' : normalizeOrder (readLayerFiles cfg w.fs (Fs.children w.fs cfg.layerdirs)) = .ok o := ho
+    simp [hdir, hc, ho']
+    rfl
+  exact ⟨_, hrun, findLayers_WF cfg w w _ hf.ok.tree hrun, rfl⟩
+
+/-- … and conversely: a well-formed tree whose layers directory is a real directory, without
+    symbolic links at layerconfig paths, on which `findLayers` succeeds, is a forest on disk -/
+theorem lists_forest (cfg : Config) (w w' : World) (d : Defs) (hT : TreeWF w.fs)
+    (hdir : Fs.get w.fs cfg.layerdirs = some .dir)
+    (hnl : ∀ a, LegalNE a → ∀ t, Fs.get w.fs (cfgOf cfg a) ≠ some (.symlink t))
+    (hr : (findLayers cfg).run.run w = (.ok d, w')) : DiskForest cfg w.fs := by
+  obtain ⟨_, hL, hc, _⟩ := findLayers_ok cfg w w' d hr
+  exact ⟨⟨hT, hdir, hnl⟩, by unfold diskLayers; rw [← hL]; exact hc⟩
+
+/-- the commands of the property's sentence: init, add, remove, rebase, mkdirs, list.
+    (`rename` is treated separately: interrupted between the directory move and the rewriting
+    of the children it leaves dangling bases — `C11.rename_interrupted_dangling_base_witness`.) -/
+def forestCmd : Cmd → Bool
+  | .init | .add .. | .remove .. | .rebase .. | .mkdirs .. | .probe => true
+  | _ => false
+
+theorem forestCmd_fsSafe (c : Cmd) (h : forestCmd c = true) : fsSafe c = true := by
+  cases c <;> first | rfl | cases h
+
+/-- the two cases of the invariant, one invocation -/
+theorem run_disk (cfg : Config) (inuse : List (Bytes × List User)) (c : Cmd) (w : World)
+    (hc : CfgOK cfg) (hs : forestCmd c = true) (hT : TreeWF w.fs) :
+    TreeWF (run cfg inuse c w).2.fs ∧
+    (DiskForest cfg w.fs → DiskForest cfg (run cfg inuse c w).2.fs) ∧
+    (Fs.get w.fs cfg.layerdirs = none →
+      Fs.get (run cfg inuse c w).2.fs cfg.layerdirs = none ∨ DiskForest cfg (run cfg inuse c w).2.fs) := by
+  obtain ⟨hcl, hA, hnb, hni⟩ := hc
+  obtain ⟨ds, hld⟩ := ld_of_clean cfg hcl.2.1
+  have hex : isAbs cfg.exportdirs = true := hcl.2.2.2
+  have hT' := run_keeps_treeWF cfg inuse c w hcl (forestCmd_fsSafe c hs) hT
+  refine ⟨hT', ?_⟩
+  -- everything but init: read the layers, then the command on what was read
+  have key : ∀ (cmd : Defs → M Defs),
+      (∀ d w1, Start cfg w1.fs d → DiskForest cfg w1.fs → TreeWF ((cmd d).run.run w1).2.fs →
+        DiskForest cfg ((cmd d).run.run w1).2.fs) →
+      TreeWF ((getLayers cfg inuse >>= cmd).run.run w).2.fs →
+      (DiskForest cfg w.fs → DiskForest cfg ((getLayers cfg inuse >>= cmd).run.run w).2.fs) ∧
+      (Fs.get w.fs cfg.layerdirs = none →
+        Fs.get ((getLayers cfg inuse >>= cmd).run.run w).2.fs cfg.layerdirs = none ∨
+          DiskForest cfg ((getLayers cfg inuse >>= cmd).run.run w).2.fs) := by
+    intro cmd hcmd hTT
+    rw [run_bind] at hTT ⊢
+    have hfs := getLayers_fs_eq cfg inuse w
+    generalize hgr : (getLayers cfg inuse).run.run w = r at hfs hTT ⊢
+    obtain ⟨x, w1⟩ := r
+    have hfs' : w1.fs = w.fs := hfs
+    cases x with
+    | error e =>
+      refine ⟨fun hf => ?_, fun hab => Or.inl ?_⟩
+      · show DiskForest cfg w1.fs
+        rw [hfs']; exact hf
+      · show Fs.get w1.fs _ = none
+        rw [hfs']; exact hab
+    | ok d =>
+      refine ⟨fun hf => ?_, fun hab => ?_⟩
+      · have hst := start_of_getLayers hld inuse w w1 d hf.ok hgr
+        exact hcmd d w1 (hfs' ▸ hst) (hfs' ▸ hf) hTT
+      · exfalso
+        obtain ⟨_, hdir, _⟩ := getLayers_ok cfg inuse w w1 d hT hgr
+        have := (present_iff _ _).mpr (isDir_key _ _ hdir)
+        rw [hab] at this; cases this
+  unfold run at hT' ⊢
+  cases c with
+  | init =>
+    have e : (runCmd cfg inuse .init).run.run w = ((initBase cfg >>= fun _ => (pure {} : M Defs)).run.run w) := rfl
+    rw [e, run_bind] at hT' ⊢
+    have hinv : ∀ hi : DiskInv cfg w.fs, ∀ hTi, DiskInv cfg ((initBase cfg).run.run w).2.fs :=
+      fun hi hTi => init_inv hld hni w hi hTi
+    have hfor : ∀ hf : DiskForest cfg w.fs, ∀ hTi, DiskForest cfg ((initBase cfg).run.run w).2.fs :=
+      fun hf hTi => init_forest hld hni w hf hTi
+    generalize hgr : (initBase cfg).run.run w = r at hT' hinv hfor ⊢
+    obtain ⟨x, w1⟩ := r
+    cases x with
+    | error e => exact ⟨fun hf => hfor hf hT', fun hab => (hinv ⟨hT, Or.inl hab⟩ hT').2⟩
+    | ok u => exact ⟨fun hf => hfor hf hT', fun hab => (hinv ⟨hT, Or.inl hab⟩ hT').2⟩
+  | add n b f =>
+    exact key (fun d => addLayer cfg d n b f) (fun d w1 hst hf hTT => add_forest hld hnb d n b f w1 hst hf hTT) hT'
+  | remove n f =>
+    exact key (fun d => removeLayer cfg d n f)
+      (fun d w1 hst hf hTT => remove_forest hld hA hex d n f w1 hst hf hTT) hT'
+  | rebase n b =>
+    exact key (fun d => rebaseLayer cfg d n b) (fun d w1 hst hf hTT => rebase_forest hld d n b w1 hst hf hTT) hT'
+  | mkdirs n =>
+    exact key (fun d => makedirs cfg d n) (fun d w1 _ hf hTT => makedirs_forest hld d n w1 hf hTT) hT'
+  | probe =>
+    exact key (fun d => pure d) (fun d w1 _ hf _ => hf) hT'
+  | rename _ _ _ => cases hs
+  | mount _ => cases hs
+  | umount _ _ => cases hs
+  | shake => cases hs
+  | chroot _ => cases hs
+
+/-- **disk_inv_after_run**: the installation invariant `DiskInv` (tree well-formed; no layers
+    directory yet, or a forest on disk) is kept by a whole invocation of init / add / remove /
+    rebase / mkdirs / list — from ANY world: pretending or not, with or without an injected
+    fault or crash, whether the command returns normally, is rejected or fails half-way. -/
+theorem disk_inv_after_run (cfg : Config) (inuse : List (Bytes × List User)) (c : Cmd) (w : World)
+    (hc : CfgOK cfg) (hs : forestCmd c = true) (hi : DiskInv cfg w.fs) :
+    DiskInv cfg (run cfg inuse c w).2.fs := by
+  obtain ⟨hT', h1, h2⟩ := run_disk cfg inuse c w hc hs hi.1
+  rcases hi.2 with hab | hf
+  · exact ⟨hT', h2 hab⟩
+  · exact ⟨hT', Or.inr (h1 hf)⟩
+
+/-- **disk_forest_after_run** (the property's sentence): from a world whose installation is a
+    forest on disk (it can be listed), after a whole invocation of init / add / remove /
+    rebase / mkdirs / list — any exit, any pretend / fault / crash setting — the installation
+    can again be listed: `findLayers` on the world left behind succeeds and returns a
+    well-formed table (`WF`: unique legal names, every parent present, no cycle, ordered). -/
+theorem disk_forest_after_run (cfg : Config) (inuse : List (Bytes × List User)) (c : Cmd) (w : World)
+    (hc : CfgOK cfg) (hs : forestCmd c = true) (hf : DiskForest cfg w.fs) :
+    DiskForest cfg (run cfg inuse c w).2.fs ∧
+    ∃ d, (findLayers cfg).run.run (run cfg inuse c w).2 = (.ok d, (run cfg inuse c w).2) ∧ WF d := by
+  have hf' := (run_disk cfg inuse c w hc hs hf.ok.tree).2.1 hf
+  obtain ⟨d, hr, hwf, _⟩ := forest_lists cfg _ hf'
+  exact ⟨hf', d, hr, hwf⟩
+
+/-- one invocation: its in-use map and its command -/
+abbrev Invocation := List (Bytes × List User) × Cmd
+
+/-- the worlds passed while running the invocations one after the other; between two
+    invocations the switches (pretend, force, fault and crash positions) may be set anew by
+    `sw`, the tree and the mount table are handed on -/
+def worldsAfter (cfg : Config) (sw : Nat → World → World) : Nat → World → List Invocation → List World
+  | _, w, [] => [w]
+  | k, w, (iu, c) :: rest => w :: worldsAfter cfg sw (k + 1) (sw k (run cfg iu c w).2) rest
+
+/-- **disk_forest_reachable**: start from any world whose tree is well-formed and which has no
+    layers directory yet or is a forest on disk; run any list of invocations of init / add /
+    remove / rebase / mkdirs / list, each with its own in-use map and its own pretend / fault /
+    crash setting (`sw` may change the switches between invocations as long as it keeps the
+    tree).  Every world on the way satisfies the invariant; in particular whenever the layers
+    directory exists the installation can be listed and the table read is a well-formed forest
+    (`wf_order` then gives the listing order). -/
+theorem disk_forest_reachable (cfg : Config) (hc : CfgOK cfg) (sw : Nat → World → World)
+    (hsw : ∀ k w, (sw k w).fs = w.fs) (invs : List Invocation) (hcs : ∀ i ∈ invs, forestCmd i.2 = true) :
+    ∀ (k : Nat) (w0 : World), DiskInv cfg w0.fs →
+      ∀ w ∈ worldsAfter cfg sw k w0 invs, DiskInv cfg w.fs ∧
+        (Fs.get w.fs cfg.layerdirs ≠ none →
+          ∃ d, (findLayers cfg).run.run w = (.ok d, w) ∧ WF d ∧ d.layers = diskLayers cfg w.fs) := by
+  induction invs with
+  | nil =>
+    intro k w0 hi w hw
+    simp only [worldsAfter, List.mem_singleton] at hw
+    subst hw
+    refine ⟨hi, fun hne => ?_⟩
+    rcases hi.2 with hab | hf
+    · exact absurd hab hne
+    · exact forest_lists cfg w hf
+  | cons i rest ih =>
+    intro k w0 hi w hw
+    obtain ⟨iu, c⟩ := i
+    simp only [worldsAfter, List.mem_cons] at hw
+    rcases hw with rfl | hw
+    · refine ⟨hi, fun hne => ?_⟩
+      rcases hi.2 with hab | hf
+      · exact absurd hab hne
+      · exact forest_lists cfg w hf
+    · have hstep := disk_inv_after_run cfg iu c w0 hc (hcs (iu, c) (by simp)) hi
+      exact ih (fun j hj => hcs j (List.mem_cons_of_mem _ hj)) (k + 1) _
+        (by rw [hsw]; exact hstep) w hw
+
+/-- **disk_forest_after_rename**: a whole `rename` invocation that returns normally
+    (pretending or not, whatever order the children are visited in) leaves a forest on disk:
+    the installation can be listed again and the table read is well-formed.  A `rename` that is
+    REJECTED changes nothing (`rename_rejects_source`, `rename_rejects_newname`, C04); a rename
+    that fails between the directory move and the last rewrite (injected fault, crash, or an
+    operating-system error) can leave children with a dangling base —
+    `C11.rename_interrupted_dangling_base_witness` — so no statement is made for those exits. -/
+theorem disk_forest_after_rename (cfg : Config) (inuse : List (Bytes × List User)) (old new : Bytes)
+    (co : List Bytes) (w : World) (d' : Defs) (hc : CfgOK cfg) (hf : DiskForest cfg w.fs)
+    (hok : (run cfg inuse (.rename old new co) w).1 = .ok d') :
+    DiskForest cfg (run cfg inuse (.rename old new co) w).2.fs ∧
+    ∃ d, (findLayers cfg).run.run (run cfg inuse (.rename old new co) w).2
+        = (.ok d, (run cfg inuse (.rename old new co) w).2) ∧ WF d := by
+  obtain ⟨hcl, hA, _, _⟩ := hc
+  obtain ⟨ds, hld⟩ := ld_of_clean cfg hcl.2.1
+  have hT' := run_keeps_treeWF cfg inuse (.rename old new co) w hcl rfl hf.ok.tree
+  have hf' : DiskForest cfg (run cfg inuse (.rename old new co) w).2.fs := by
+    generalize hw' : (run cfg inuse (.rename old new co) w).2 = w' at hT' ⊢
+    have hrun : (getLayers cfg inuse >>= fun d => renameLayer cfg d old new co).run.run w = (.ok d', w') := by
+      have e : run cfg inuse (.rename old new co) w
+          = (getLayers cfg inuse >>= fun d => renameLayer cfg d old new co).run.run w := rfl
+      rw [← e, ← hok, ← hw']
+    obtain ⟨d, w1, h1, h2⟩ := bind_ok_inv _ _ _ _ _ hrun
+    have hfs : w1.fs = w.fs := by
+      have := getLayers_fs_eq cfg inuse w
+      rw [h1] at this; exact this
+    have hst := start_of_getLayers hld inuse w w1 d hf.ok h1
+    exact rename_forest hld hA hcl.2.2.2 d old new co w1 (hfs ▸ hst) (hfs ▸ hf) d' w' h2 hT'
+  obtain ⟨d, hr, hwf, _⟩ := forest_lists cfg _ hf'
+  exact ⟨hf', d, hr, hwf⟩
+
+/-- an invocation the sequence theorem accepts in the world `w`: one of init / add / remove /
+    rebase / mkdirs / list (any exit), or a `rename` that returns normally or leaves the tree
+    as it was (a rejected rename, a rename of a missing layer, …) -/
+def Admissible (cfg : Config) (iu : List (Bytes × List User)) (c : Cmd) (w : World) : Prop :=
+  forestCmd c = true ∨
+    ∃ o n co, c = .rename o n co ∧ ((∃ d', (run cfg iu c w).1 = .ok d') ∨ (run cfg iu c w).2.fs = w.fs)
+
+/-- the worlds reachable from `w0`: after an admissible invocation any world with the tree it
+    left behind (the switches, the mount table, the trace may be anything) -/
+inductive DiskReach (cfg : Config) (w0 : World) : World → Prop where
+  | start : DiskReach cfg w0 w0
+  | step (w w1 : World) (iu : List (Bytes × List User)) (c : Cmd) : DiskReach cfg w0 w →
+      Admissible cfg iu c w → w1.fs = (run cfg iu c w).2.fs → DiskReach cfg w0 w1
+
+/-- **disk_reach_inv**: `disk_forest_reachable` with `rename` among the commands -/
+theorem disk_reach_inv (cfg : Config) (hc : CfgOK cfg) (w0 w : World) (hi : DiskInv cfg w0.fs)
+    (hr : DiskReach cfg w0 w) :
+    DiskInv cfg w.fs ∧ (Fs.get w.fs cfg.layerdirs ≠ none →
+      ∃ d, (findLayers cfg).run.run w = (.ok d, w) ∧ WF d ∧ d.layers = diskLayers cfg w.fs) := by
+  have key : DiskInv cfg w.fs := by
+    induction hr with
+    | start => exact hi
+    | step w w1 iu c _ ha hfs ih =>
+      rw [hfs]
+      rcases ha with hfc | ⟨o, n, co, rfl, hok | hsame⟩
+      · exact disk_inv_after_run cfg iu c w hc hfc ih
+      · obtain ⟨d', hok⟩ := hok
+        have hT' := run_keeps_treeWF cfg iu (.rename o n co) w hc.1 rfl ih.1
+        refine ⟨hT', ?_⟩
+        rcases ih.2 with hab | hf
+        · -- without a layers directory `rename` cannot return normally
+          exfalso
+          have hrun : (getLayers cfg iu >>= fun d => renameLayer cfg d o n co).run.run w
+              = (.ok d', (run cfg iu (.rename o n co) w).2) := by
+            have e : run cfg iu (.rename o n co) w
+                = (getLayers cfg iu >>= fun d => renameLayer cfg d o n co).run.run w := rfl
+            rw [← e, ← hok]
+          obtain ⟨d, w2, h1, _⟩ := bind_ok_inv _ _ _ _ _ hrun
+          obtain ⟨_, hdir, _⟩ := getLayers_ok cfg iu w w2 d ih.1 h1
+          have := (present_iff _ _).mpr (isDir_key _ _ hdir)
+          rw [hab] at this; cases this
+        · exact Or.inr (disk_forest_after_rename cfg iu o n co w d' hc hf hok).1
+      · rw [hsame]; exact ih
+  refine ⟨key, fun hne => ?_⟩
+  rcases key.2 with hab | hf
+  · exact absurd hab hne
+  · exact forest_lists cfg w hf
+
+/-! non-vacuity of 8: the example disk and configuration; real (non-pretending) runs -/
+
+example : CfgOK exCfg := by decide
+
+/-- a tree without symbolic links on which the layers directory is a directory and
+    `findLayers` succeeds is a forest on disk -/
+theorem forest_of_plain (cfg : Config) (w w' : World) (d : Defs) (hT : TreeWF w.fs)
+    (hdir : Fs.get w.fs cfg.layerdirs = some .dir)
+    (hpl : w.fs.all (fun e => match e.2 with | .symlink _ => false | _ => true) = true)
+    (hr : (findLayers cfg).run.run w = (.ok d, w')) : DiskForest cfg w.fs := by
+  refine lists_forest cfg w w' d hT hdir ?_ hr
+  intro a _ t hg
+  have := List.all_eq_true.mp hpl _ (get_some_key _ _ _ hg)
+  simp at this
+
+set_option maxRecDepth 100000 in
+/-- the example disk (layers `m`, `b` ← m, an illegal name, a directory without layerconfig) -/
+theorem exDisk_forest : DiskForest exCfg exDisk.fs :=
+  forest_of_plain exCfg exDisk exDisk _ (by decide) (by decide) (by decide) rfl
+
+/-- `disk_forest_after_run` on it: a real `add`, and the same `add` with a crash injected at
+    its 4th (the layerconfig rename) and 5th mutation — listable each time; the listings -/
+example := disk_forest_after_run exCfg [] (.add b!"n" b!"b" []) exDisk (by decide) rfl exDisk_forest
+example := disk_forest_after_run exCfg [] (.add b!"n" b!"b" []) { exDisk with crashAt := some 4 }
+  (by decide) rfl exDisk_forest
+example : ((findLayers exCfg).run.run (run exCfg [] (.add b!"n" b!"b" []) exDisk).2).1.toOption.map (·.order)
+    = some [b!"m", b!"b", b!"n"] := by decide +kernel
+example : ((findLayers exCfg).run.run
+      (run exCfg [] (.add b!"n" b!"b" []) { exDisk with crashAt := some 4 }).2).1.toOption.map (·.order)
+    = some [b!"m", b!"b"] := by decide +kernel
+example : ((findLayers exCfg).run.run
+      (run exCfg [] (.add b!"n" b!"b" []) { exDisk with crashAt := some 5 }).2).1.toOption.map (·.order)
+    = some [b!"m", b!"b", b!"n"] := by decide +kernel
+
+/-- `disk_forest_reachable` from a disk that holds nothing but "/": list (fails), init, add a
+    root, add a child, the same again (refused), rebase the root onto its child (refused),
+    remove the root (refused), add a grandchild, rebase it onto the root, mkdirs, remove the
+    middle layer with its files — the invariant all the way, and the final listing -/
+def exEmpty : World := { fs := [(b!"/", .dir)] }
+def exInvs : List Invocation :=
+  [([], .probe), ([], .init), ([], .add b!"r" [] []), ([], .add b!"c" b!"r" []), ([], .add b!"c" b!"r" []),
+   ([], .rebase b!"r" b!"c"), ([], .remove b!"r" false), ([], .add b!"g" b!"c" []), ([], .rebase b!"g" b!"r"),
+   ([], .mkdirs b!"g"), ([], .remove b!"c" true)]
+example : DiskInv exCfg exEmpty.fs := ⟨by decide, Or.inl (by decide)⟩
+example := disk_forest_reachable exCfg (by decide) (fun _ w => w) (fun _ _ => rfl) exInvs (by decide) 0 exEmpty
+  ⟨by decide, Or.inl (by decide)⟩
+example : ((findLayers exCfg).run.run
+      ((worldsAfter exCfg (fun _ w => w) 0 exEmpty exInvs).getLastD exEmpty)).1.toOption.map (·.order)
+    = some [b!"r", b!"g"] := by decide +kernel
+/-- `disk_forest_after_rename` on the example disk: a real rename of `m` (its child `b` is
+    rewritten), and the listing afterwards -/
+example : (run exCfg [] (.rename b!"m" b!"x" []) exDisk).1.toOption.map (·.order) = some [b!"x", b!"b"] := by
+  decide +kernel
+example : ((findLayers exCfg).run.run (run exCfg [] (.rename b!"m" b!"x" []) exDisk).2).1.toOption.map
+    (fun d => d.layers.map nb) = some [(b!"b", b!"x"), (b!"x", [])] := by decide +kernel
+/-- a disk that is not a forest (b's parent is missing): the hypothesis is not vacuous -/
+example : ¬ DiskForest exCfg [(b!"/", .dir), (b!"/lc", .dir), (b!"/lc/layers", .dir),
+    (b!"/lc/layers/b", .dir), (b!"/lc/layers/b/layerconfig", .file b!"base m\n")] := by
+  intro h
+  have := h.check
+  revert this
+  decide +kernel
 
 end Lc.Props.C02
